@@ -28,7 +28,10 @@ pub fn gen_frame(r: &mut Rng, shaped: bool) -> Frame {
     let body = r.bytes(8);
     for i in 0..dlen { data[i] = body[i]; }
     let id = match r.below(8) { 0 => 0, 1 => 1, 2 => 255, 3 => 256, 4 => 0xfff, 5 => 0x100 * r.below(16) as u16, _ => r.below(4096) as u16 };
-    let ne = r.coin(); let addr = r.u16b() as u16;
+    let ne = r.coin(); let mut addr = r.u16b() as u16;
+    // coincidences between independent fields: address = frame id, payload bytes = id / address / length bytes
+    match r.below(10) { 0 => { addr = id; } 1 => { for i in 0..dlen { data[i] = id as u8; } } 2 => { for i in 0..dlen { data[i] = if i % 2 == 0 { (addr >> 8) as u8 } else { addr as u8 }; } }
+                        3 => { for i in 0..dlen { data[i] = dlen as u8; } } 4 => { addr = ((id & 0xff) << 8) | (id >> 8); } _ => {} }
     if shaped {
         if r.coin() {
             let dlen = dlen.max(1); let st = r.coin(); data[0] = (id & 0xff) as u8;
